@@ -39,6 +39,25 @@ func addrRoot(v ssa.Value, depth int) (rootKind, ssa.Value) {
 	return addrRootSeen(v, depth, map[*ssa.Phi]bool{})
 }
 
+// allocContentRoot: does some store into the local variable put a reference rooted at package-level state there?
+func allocContentRoot(al *ssa.Alloc, depth int, seen map[*ssa.Phi]bool) (rootKind, ssa.Value) {
+	switch al.Type().(*types.Pointer).Elem().Underlying().(type) {
+	case *types.Map, *types.Slice, *types.Pointer:
+	default:
+		return rootLocal, al
+	}
+	if refs := al.Referrers(); refs != nil {
+		for _, ref := range *refs {
+			if st, ok := ref.(*ssa.Store); ok && st.Addr == ssa.Value(al) {
+				if k, r := addrRootSeen(st.Val, depth+16, seen); k == rootGlobal {
+					return k, r
+				}
+			}
+		}
+	}
+	return rootLocal, al
+}
+
 func addrRootSeen(v ssa.Value, depth int, seen map[*ssa.Phi]bool) (rootKind, ssa.Value) {
 	for depth < 64 {
 		depth++
@@ -67,6 +86,12 @@ func addrRootSeen(v ssa.Value, depth int, seen map[*ssa.Phi]bool) (rootKind, ssa
 			if x.Op != token.MUL {
 				return rootOther, x
 			}
+			// a map / slice / pointer read out of a local variable that was filled from package-level state shares it
+			if al, ok := x.X.(*ssa.Alloc); ok && depth < 32 {
+				if k, r := allocContentRoot(al, depth, seen); k == rootGlobal {
+					return k, r
+				}
+			}
 			v = x.X // a pointer / map / slice loaded from …
 		case *ssa.ChangeType:
 			v = x.X
@@ -91,7 +116,23 @@ func addrRootSeen(v ssa.Value, depth int, seen map[*ssa.Phi]bool) (rootKind, ssa
 			}
 			return worst, wv
 		case *ssa.Call:
-			return rootLocal, x // call results are treated as fresh unless proven otherwise by the caller of this helper
+			// a package-level function value (sync.OnceValue product, lazily built table) hands out process-wide state
+			if ld, ok := x.Common().Value.(*ssa.UnOp); ok && ld.Op == token.MUL {
+				if g, ok := ld.X.(*ssa.Global); ok {
+					return rootGlobal, g
+				}
+			}
+			// a module function that returns something rooted at a package-level variable (a getter)
+			if callee := x.Common().StaticCallee(); callee != nil && callee.Blocks != nil && core.InModule(callee) && depth < 40 {
+				for _, b := range callee.Blocks {
+					if ret, ok := b.Instrs[len(b.Instrs)-1].(*ssa.Return); ok && len(ret.Results) > 0 {
+						if k, r := addrRootSeen(ret.Results[0], depth+24, seen); k == rootGlobal {
+							return k, r
+						}
+					}
+				}
+			}
+			return rootLocal, x // other call results are treated as fresh
 		case *ssa.Extract:
 			v = x.Tuple
 		case *ssa.TypeAssert:
